@@ -64,7 +64,7 @@ Init == /\ parent \in [Desc -> Procs] /\ \A d \in Desc : parent[d] < d
         /\ \A d \in Desc : IF parent[d] = 0 THEN TRUE ELSE (holds[d] => holds[parent[d]])
         /\ rootExits \in BOOLEAN
         /\ startMode \in {"execute", "start"}
-        /\ stopMode \in {"ctx", "cancel", "stop"}
+        /\ stopMode \in {"ctx", "deadline", "cancel", "stop"}     \* "deadline": the context ends by its time limit, not by cancel()
         /\ (stopMode = "stop" => startMode = "start")
         /\ launcher \in {"direct", "translated"}
         \* the direct child itself may ignore SIGTERM (a shell with a trap, an init-like wrapper); it does not then exit by itself either
